@@ -98,9 +98,9 @@ def audit_axioms(pid):
     rc, out, err = sh(["lake", "env", "lean", f], cwd=LEAN, timeout=1200)
     thms = {}
     text = out + err
-    for m in re.finditer(r"'([^']+)' depends on axioms: \[([^\]]*)\]", text, flags=re.S):
+    for m in re.finditer(r"'(\S+)' depends on axioms: \[([^\]]*)\]", text, flags=re.S):
         thms[m.group(1)] = [a.strip() for a in m.group(2).replace("\n", " ").split(",") if a.strip()]
-    for m in re.finditer(r"'([^']+)' does not depend on any axioms", text):
+    for m in re.finditer(r"'(\S+)' does not depend on any axioms", text):
         thms[m.group(1)] = []
     return thms, rc == 0, text
 
